@@ -422,6 +422,11 @@ class Driver:
             r = with_timeout(lambda: w.terminate(timeout=T, force=False), T * 2 + 5)
             obs.setdefault('terminate_ret', []).append(r if isinstance(r, (bool, str)) else repr(r))
             obs.setdefault('terminate_s', []).append(round(time.time() - t0, 3))
+        if live is not None and (obs.get('terminate_ret') or [None])[-1] is True:
+            # terminate() has reported the worker dead: the consumer which was already waiting must see the end of the stream
+            # without any further call on the worker helping it along
+            live['thread'].join(4)
+            obs['live_consumer_released_by_terminate'] = not live['thread'].is_alive()
         # observe death
         how = case.get('observe', 'wait')
         t0 = time.time()
